@@ -2,6 +2,7 @@
 // in both directions. Shape (I): the C03 value set for each of the eleven codecs.
 #include <zlib.h>
 
+#include "c02_stored.hpp"
 #include "codec_run.hpp"
 
 namespace
@@ -160,6 +161,23 @@ int run(const Options& o)
         p["tasks_completed"] = (long long)cfg.tasks_done;
         completed.push(p);
     }
+    // stored-blob half: blobs written through create_track on every schema, read back by raw SQL and decoded with refcodec
+    {
+        auto schemas = wm::all_schemas();
+        auto res = run_pool(schemas.size(), o.jobs, 300, [&](size_t si, Emitter& em) {
+            Agg a;
+            wm::World w(schemas[si]);
+            c02s::run_stored(w, a);
+            a.flush(em);
+        });
+        for (size_t i = 0; i < res.size(); ++i)
+        {
+            for (auto& l : res[i].lines) total.merge_line(l, rep);
+            if (res[i].status != CaseResult::Ok) rep.add(Violation{"stored.crash:" + res[i].crash_kind, "writing / reading stored blobs died (" + res[i].crash_kind + ") in " + res[i].crash_frame, "stored:" + wm::schema_name(schemas[i]), Json(res[i].crash_head)});
+            else ++tasks_done;
+            ++tasks;
+        }
+    }
     rep.set_counts(total.vcount);
     const bool exhaustive = !deadline_hit && tasks_done == tasks;
     auto& c = ev.cov();
@@ -172,7 +190,9 @@ int run(const Options& o)
         "The C03 value set (base value + at most k field deviations per codec; quick k=2 small size alphabets, thorough k=2 wide + k=3 small) restricted to the encodable domain. "
         "For every value v: refcodec.decode(unframe(lib.encode(v))) must equal the Engine layout of v field for field (and the frame must be exactly 4-byte BE length + one complete "
         "zlib stream), and lib.decode(frame(refcodec.encode(v))) must equal v, with the foreign blob compressed at zlib level -1/0/1/9 (chosen by case hash) and, for 1.x beat data, "
-        "also with Engine's nine trailing zero bytes. Distinct = distinct (codec, payload) pairs; validated = comparisons that were carried out and agreed.";
+        "also with Engine's nine trailing zero bytes. Stored half: five snapshot variants (all slots, edge slots with 255-byte labels and four different colour channel values, short lists, three-marker grid) are "
+        "written with create_track on all 18 schemas; the raw quickCues / loops / beatData / trackData columns are read by raw SQL and decoded with refcodec and must hold exactly the content the Engine layout "
+        "prescribes for the snapshot (8 slots, empty slot = offset -1, channel order a,r,g,b, beats-to-next-marker, main cue twice, loudness three times on 2.x). Distinct = distinct (codec, payload) pairs; validated = comparisons that were carried out and agreed.";
     c["exhaustive"] = exhaustive;
     Json b = Json::object();
     b["phases"] = completed;
